@@ -87,6 +87,7 @@ type Exec struct {
 	pdoms      map[*ssa.Function][]int
 	notes      []string
 	stack      []string
+	marshals   map[*BObj]*marshalSnap
 }
 
 type goRec struct {
@@ -121,8 +122,8 @@ func (e *Exec) sat(extra *Term) string {
 	for _, p := range e.pc {
 		s.Assert(p)
 	}
-	e.ufConstraints(s)
 	s.Assert(extra)
+	e.ufConstraints(s)
 	r, _ := e.sol.Check(s.String(), nil)
 	return r
 }
@@ -152,7 +153,9 @@ func (e *Exec) check(cond *Term, kind, what string, pos token.Pos) {
 		return
 	}
 	e.nAssertQ++
+	e.sol.Tag = kind + ":" + what + "@" + e.eng.pos(pos)
 	r := e.sat(e.tb.Not(cond))
+	e.sol.Tag = ""
 	switch r {
 	case "unsat":
 		// proven: implied by the path condition.  Safety obligations are kept as cheap lemmas;
@@ -187,6 +190,7 @@ func (e *Exec) branch(c *Term) bool {
 		d = e.prefix[i] == 1
 	} else {
 		e.nBranchQ++
+		e.sol.Tag = "branch in " + strings.Join(e.stack, ">")
 		rt := e.sat(c)
 		if rt == "unknown" {
 			e.unknowns++
@@ -357,7 +361,9 @@ func (e *Exec) callValue(fv Value, args []Value, pos token.Pos) Value {
 func (e *Exec) callFunc(fn *ssa.Function, args []Value, free []Value, pos token.Pos) Value {
 	name := fn.String()
 	if h := e.eng.lookupIntrinsic(fn, name); h != nil {
-		return h(e, fn, args, pos)
+		if r := h(e, fn, args, pos); r != Value(notHandled) {
+			return r
+		}
 	}
 	if fn.Blocks == nil {
 		e.unsupported("function without body: %s", name)
